@@ -288,6 +288,71 @@ theorem unbatchifyAndGather_get (x : Tens α) (B k : Nat) (hk : 0 < k) (rest : L
 
 
 
+/-! ### TensorDicts (nested keys), AM decoder, `gather_by_index` -/
+
+/-- **C12 `batchifyTD_row`**: for a TensorDict, at EVERY key path (nested entries included), row `r` of the
+expansion is row `r % B` of the original. -/
+theorem batchifyTD_row (ks : List Nat) (td : TD α) (B : Nat) (rest : List String → List Nat)
+    (h : ∀ path, (td path).shape = B :: rest path) (path : List String) :
+    ((batchifyTD td ks) path).shape = (B * mult ks) :: rest path ∧
+    ∀ r t, r < B * mult ks → ((batchifyTD td ks) path).get (r :: t) = (td path).get ((r % B) :: t) :=
+  batchify_row ks (td path) B (rest path) (h path)
+
+/-- **C12 `unbatchifyTD_batchifyTD`**: expansion followed by its inverse is the identity at every key path. -/
+theorem unbatchifyTD_batchifyTD (ks : List Nat) (hpos : ∀ k ∈ ks, 0 < k) (td : TD α) (B : Nat)
+    (rest : List String → List Nat) (h : ∀ path, (td path).shape = B :: rest path) (path : List String) :
+    ((unbatchifyTD (batchifyTD td ks) ks) path).shape = B :: (ks ++ rest path) ∧
+    ∀ b js t, b < B → Digits js ks →
+      ((unbatchifyTD (batchifyTD td ks) ks) path).get (b :: (js ++ t)) = (td path).get (b :: t) :=
+  unbatchify_batchify ks hpos (td path) B (rest path) (h path)
+
+/-- **AM decoder, static embeddings** (with the extracted `unbatchify(td, num_starts)` and
+`"b s l -> (s b) l"`): what is computed for row `r` of the regrouped state lands at row `r` again. -/
+theorem am_static_roundtrip (y : Tens α) (B S : Nat) (hS : 0 < S) (rest : List Nat)
+    (h : y.shape = (B * S) :: rest) :
+    (amFlatten (amRegroup y S)).shape = (S * B) :: rest ∧
+    ∀ r t, (amFlatten (amRegroup y S)).get (r :: t) = y.get (r :: t) := by
+  simp only [amFlatten, amRegroup, Params.amFlattenReplicaMajor, Params.amStaticUnbatchify, if_true]
+  exact rearrange_unbatchify y B S hS rest h
+
+/-- **AM decoder, dynamic embeddings**: the cache row that meets state row `r` of the `S`-fold expanded
+batch is the cache of instance `r % B` — the same law as the state's own expansion (`batchify_row`). -/
+theorem am_dynamic_pairing (c : Tens α) (B S : Nat) (hS : 0 < S) (rest : List Nat) (h : c.shape = B :: rest) :
+    (cacheBatchify c S).shape = (B * S) :: rest ∧
+    ∀ r t, r < B * S → (cacheBatchify c S).get (r :: t) = c.get ((r % B) :: t) := by
+  have := batchify_row [S] c B rest h
+  simp only [mult, hS, if_true, Nat.mul_one] at this
+  simpa [cacheBatchify, Params.amCacheUsesBatchify] using this
+
+/-- **`gather_by_index`, when the step dimension survives**: for `src : [B, N, …]`, `idx : [B, S]` the result is
+`[B, S, …]` with `[b][s] = src[b][idx b s]` iff `S ≠ 1` or `squeeze = False` … -/
+theorem gatherIdx_step_survives (src : Tens α) (B N S : Nat) (rest : List Nat) (h : src.shape = B :: N :: rest)
+    (idx : Nat → Nat → Nat) (squeeze : Bool) (hs : S ≠ 1 ∨ squeeze = false) :
+    (gatherIdx src S idx squeeze).shape = B :: S :: rest ∧
+    ∀ b s t, (gatherIdx src S idx squeeze).get (b :: s :: t) = src.get (b :: idx b s :: t) := by
+  have hc : ((S == Params.opsGatherSqueezeSize) && squeeze) = false := by
+    rcases hs with hs | hs
+    · simp [Params.opsGatherSqueezeSize, hs]
+    · simp [hs]
+  simp [gatherIdx, h, hc]
+
+/-- … and a single step with `squeeze = True` LOSES it: the result is `[B, …]`. -/
+theorem gatherIdx_step_lost (src : Tens α) (B N : Nat) (rest : List Nat) (h : src.shape = B :: N :: rest)
+    (idx : Nat → Nat → Nat) :
+    (gatherIdx src 1 idx true).shape = B :: rest ∧
+    ∀ b t, (gatherIdx src 1 idx true).get (b :: t) = src.get (b :: idx b 0 :: t) := by
+  simp [gatherIdx, h, Params.opsGatherSqueezeSize]
+
+/-- the default call (`squeeze=True`, `dim=1`) on a one-step index therefore drops the step dimension (the root
+of upstream fix f2d5960); passing `squeeze=False` keeps it for every `S` -/
+theorem gatherIdx_default_one_step (src : Tens α) (B N : Nat) (rest : List Nat) (h : src.shape = B :: N :: rest)
+    (idx : Nat → Nat → Nat) :
+    (gatherIdxDefault src 1 idx).shape = B :: rest ∧
+    ∀ S, (gatherIdx src S idx false).shape = B :: S :: rest := by
+  refine ⟨?_, fun S => (gatherIdx_step_survives src B N S rest h idx false (Or.inr rfl)).1⟩
+  simp only [gatherIdxDefault, Params.opsGatherDimDefault, Params.opsGatherSqueezeDefault]
+  exact (gatherIdx_step_lost src B N rest h idx).1
+
 /-! ### non-vacuity: the hypotheses are satisfiable and the laws are the ones observed on the code -/
 
 example : (batchify (iota 2) [2, 3]).flat = [0, 1, 0, 1, 0, 1, 0, 1, 0, 1, 0, 1] := by decide
